@@ -1316,6 +1316,28 @@ func (e *Engine) slice(fr *Frame, in *ssa.Slice) Value {
 	}
 	switch v := x.(type) {
 	case Str:
+		if in.Low != nil && in.High != nil {
+			lt, ht := e.get(fr, in.Low).(*Term), e.get(fr, in.High).(*Term)
+			if !lt.IsConst() && lt.W == ht.W {
+				if d := Bin(OpSub, ht, lt); d.IsConst() && d.V <= 16 && v.Len() <= symIndexLimit && int(d.V) <= v.Len() {
+					k := int(d.V)
+					// bounds: lo + k <= len (unsigned), else panic
+					okc := Bin(OpULe, lt, BV(lt.W, uint64(v.Len()-k)))
+					if !e.branch(okc) {
+						e.goPanicRuntime("slice bounds out of range (symbolic)")
+					}
+					ts := v.Terms()
+					out := make([]*Term, k)
+					for j := 0; j < k; j++ {
+						out[j] = muxTerms(lt, ts[j:len(ts)-k+j+1])
+					}
+					if k == 0 {
+						return Str{}
+					}
+					return mkStr(out)
+				}
+			}
+		}
 		lo := opt(in.Low, 0)
 		hi := opt(in.High, v.Len())
 		if lo < 0 || hi < lo || hi > v.Len() {
